@@ -73,8 +73,11 @@ def load_known():
 def known_match(known, prop, oracle, klass):
     """Index of the known finding that lists exactly this (property, oracle, class), else None."""
     for i, k in enumerate(known):
-        if k["property"] == prop and k["oracle"] == oracle and klass in k["classes"]:
-            return i
+        if k["property"] != prop:
+            continue
+        for m in k["match"]:
+            if m["oracle"] == oracle and klass in m["classes"]:
+                return i
     return None
 
 
@@ -414,8 +417,8 @@ def check(prop, engine_name, tier, base_seed, budgets, describe):
         exit_code = 1
     for idx, hits in sorted(m["known_hits"].items()):
         k = known[idx]
-        print("KNOWN-FINDING: property=%s %s (oracle=%s; fired in %d steps of this batch)"
-              % (prop, k["what"], k["oracle"], hits))
+        print("KNOWN-FINDING: property=%s %s: %s (fired in %d steps of this batch)"
+              % (prop, k["id"], k["what"], hits))
 
     stats = m["stats"]
     faults = {k.split(":", 1)[1]: v for k, v in sorted(stats.items()) if k.startswith("fault_fired:")}
